@@ -401,3 +401,186 @@ Print Assumptions C12_hi64_spec.
 Print Assumptions C12_hi64_nil.
 Print Assumptions C12_hi64_val_bounds.
 Print Assumptions C12_from_u64_spec.
+
+(** SOURCE TIE (tools/rs2coq): src/bigint.rs is regenerated as Gallina on every run (coq/gen/SrcBigint.v) and every function is proved EQUAL to the hand-written model function the theorems above are about, for all inputs in the machine ranges (u64 limbs, usize lengths), both build modes, both back-ends.  The vector primitives (try_push, try_resize, try_from, len, capacity, indexing, set_len) and shl_limbs are given by model/Vec.v + model/SrcLib.v (tied at cell level by C13). *)
+From ML Require Import model.SrcLib gen.Src gen.SrcBigint proofs.SrcEqBigintA proofs.SrcEqBigintB proofs.SrcEqBigintC.
+
+Theorem C12_rs_scalar_add_eq :
+  forall (b : build) (x y : Z), rs_scalar_add b x y = Ok (scalar_add x y).
+Proof. exact rs_scalar_add_eq. Qed.
+
+Theorem C12_rs_scalar_mul_eq :
+  forall (b : build) (x y carry : Z),
+         0 <= x < 2 ^ 64 ->
+         0 <= y < 2 ^ 64 -> 0 <= carry < 2 ^ 64 -> rs_scalar_mul b x y carry = Ok (scalar_mul x y carry).
+Proof. exact rs_scalar_mul_eq. Qed.
+
+Theorem C12_rs_compare_eq :
+  forall (b : build) (x y : list Z), rs_compare b x y = Ok (vcompare x y).
+Proof. exact rs_compare_eq. Qed.
+
+Theorem C12_rs_bigint_normalize_eq :
+  forall (b : build) (v : vec),
+         zlen (vl v) < 2 ^ 64 -> rs_bigint_normalize b v = Ok (vset_list v (normalize_list (vl v))).
+Proof. exact rs_bigint_normalize_eq. Qed.
+
+Theorem C12_rs_is_normalized_eq :
+  forall (b : build) (l : list Z), zlen l < 2 ^ 64 -> rs_is_normalized b l = Ok (is_normalized l).
+Proof. exact rs_is_normalized_eq. Qed.
+
+Theorem C12_rs_from_u64_eq :
+  forall (c : config) (L : limits) (b : build) (x : Z), rs_from_u64 c L b x = from_u64 c L b x.
+Proof. exact rs_from_u64_eq. Qed.
+
+Theorem C12_rs_nonzero_eq :
+  forall (b : build) (l : list Z) (rindex : Z), rs_nonzero b l rindex = nonzero b l rindex.
+Proof. exact rs_nonzero_eq. Qed.
+
+Theorem C12_rs_u64_to_hi64_1_eq :
+  forall (b : build) (r0 : Z), rs_u64_to_hi64_1 b r0 = u64_to_hi64_1 b r0.
+Proof. exact rs_u64_to_hi64_1_eq. Qed.
+
+Theorem C12_rs_u64_to_hi64_2_eq :
+  forall (b : build) (r0 r1 : Z), rs_u64_to_hi64_2 b r0 r1 = u64_to_hi64_2 b r0 r1.
+Proof. exact rs_u64_to_hi64_2_eq. Qed.
+
+Theorem C12_rs_rview_index_eq :
+  forall (b : build) (l : list Z) (i : Z),
+         zlen l < 2 ^ 64 -> 0 <= i < zlen l -> rs_rview_index b l i = Ok (nth (Z.to_nat i) (rev l) 0).
+Proof. exact rs_rview_index_eq. Qed.
+
+Theorem C12_rs_hi64_eq :
+  forall (b : build) (l : list Z), zlen l < 2 ^ 64 -> rs_hi64 b l = hi64 b l.
+Proof. exact rs_hi64_eq. Qed.
+
+Theorem C12_rs_leading_zeros_eq :
+  forall (b : build) (l : list Z), zlen l < 2 ^ 64 -> rs_leading_zeros b l = Ok (leading_zeros l).
+Proof. exact rs_leading_zeros_eq. Qed.
+
+Theorem C12_rs_bit_length_eq :
+  forall (L : limits) (b : build) (l : list Z),
+         LIMB_BITS L = 64 -> zlen l < 2 ^ 64 -> rs_bit_length b l = bit_length L b l.
+Proof. exact rs_bit_length_eq. Qed.
+
+Theorem C12_rs_shl_bits_eq :
+  forall (c : config) (L : limits) (b : build) (v : vec) (n : Z),
+         LIMB_BITS L = 64 -> rs_shl_bits c b v n = shl_bits c L b v n.
+Proof. exact rs_shl_bits_eq. Qed.
+
+Theorem C12_rs_shl_limbs_eq :
+  forall (b : build) (v : vec) (n : Z), rs_shl_limbs b v n = shl_limbs b v n.
+Proof. exact rs_shl_limbs_eq. Qed.
+
+Theorem C12_rs_shl_eq :
+  forall (c : config) (L : limits) (b : build) (v : vec) (n : Z),
+         LIMB_BITS L = 64 -> rs_shl c b v n = shl c L b v n.
+Proof. exact rs_shl_eq. Qed.
+
+Theorem C12_rs_small_add_from_eq :
+  forall (c : config) (b : build) (v : vec) (y start : Z),
+         0 <= start ->
+         zlen (vl v) < 2 ^ 64 -> rs_small_add_from c b v y start = Ok (small_add_from c v y start).
+Proof. exact rs_small_add_from_eq. Qed.
+
+Theorem C12_rs_small_add_eq :
+  forall (c : config) (b : build) (v : vec) (y : Z),
+         zlen (vl v) < 2 ^ 64 -> rs_small_add c b v y = Ok (small_add c v y).
+Proof. exact rs_small_add_eq. Qed.
+
+Theorem C12_rs_small_mul_eq :
+  forall (c : config) (b : build) (v : vec) (y : Z),
+         limbs_ok (vl v) -> SrcEqBase.u64_ok y -> rs_small_mul c b v y = Ok (small_mul c v y).
+Proof. exact rs_small_mul_eq. Qed.
+
+Theorem C12_rs_large_add_from_eq :
+  forall (c : config) (b : build) (v : vec) (y : list Z) (start : Z),
+         0 <= start ->
+         zlen (vl v) < 2 ^ 64 ->
+         zlen y + start < 2 ^ 64 -> rs_large_add_from c b v y start = Ok (large_add_from c v y start).
+Proof. exact rs_large_add_from_eq. Qed.
+
+Theorem C12_rs_large_add_eq :
+  forall (c : config) (b : build) (v : vec) (y : list Z),
+         zlen (vl v) < 2 ^ 64 -> zlen y < 2 ^ 64 -> rs_large_add c b v y = Ok (large_add c v y).
+Proof. exact rs_large_add_eq. Qed.
+
+Theorem C12_rs_long_mul_eq :
+  forall (c : config) (L : limits) (b : build) (x y : list Z),
+         limbs_ok x ->
+         limbs_ok y -> zlen x + zlen y + 1 < 2 ^ 64 -> rs_long_mul c L b x y = Ok (long_mul c L x y).
+Proof. exact rs_long_mul_eq. Qed.
+
+Theorem C12_rs_large_mul_eq :
+  forall (c : config) (L : limits) (b : build) (v : vec) (y : list Z),
+         limbs_ok (vl v) ->
+         limbs_ok y -> zlen (vl v) + zlen y + 1 < 2 ^ 64 -> rs_large_mul c L b v y = Ok (large_mul c L v y).
+Proof. exact rs_large_mul_eq. Qed.
+
+Theorem C12_rs_pow_eq :
+  forall (c : config) (T : tables) (L : limits) (b : build) (v : vec) (e : Z),
+         pow_tables_ok T ->
+         0 < LARGE_POW5_STEP T ->
+         limbs_ok (vl v) ->
+         0 <= e < 2 ^ 32 ->
+         zlen (vl v) + e / LARGE_POW5_STEP T * (zlen (LARGE_POW5 T) + 1) < 2 ^ 64 ->
+         rs_pow c T L b v e = pow5 c T L b v e.
+Proof. exact rs_pow_eq. Qed.
+
+Theorem C12_rs_pow_eq_compact :
+  forall (c : config) (T : tables) (L : limits) (b : build) (v : vec) (e : Z),
+         compact c = true -> limbs_ok (vl v) -> 0 <= e < 2 ^ 32 -> rs_pow c T L b v e = pow5 c T L b v e.
+Proof. exact rs_pow_eq_compact. Qed.
+
+Theorem C12_rs_pow_eq_TABLES :
+  forall (c : config) (L : limits) (b : build) (v : vec) (e : Z),
+         limbs_ok (vl v) ->
+         0 <= e < 2 ^ 32 -> zlen (vl v) < 2 ^ 63 -> rs_pow c TABLES L b v e = pow5 c TABLES L b v e.
+Proof. exact rs_pow_eq_TABLES. Qed.
+
+Theorem C12_rs_bigint_pow_eq :
+  forall (c : config) (T : tables) (L : limits) (b : build) (v : vec) (base e : Z),
+         LIMB_BITS L = 64 ->
+         pow_tables_ok T ->
+         0 < LARGE_POW5_STEP T ->
+         limbs_ok (vl v) ->
+         0 <= e < 2 ^ 32 ->
+         zlen (vl v) + e / LARGE_POW5_STEP T * (zlen (LARGE_POW5 T) + 1) < 2 ^ 64 ->
+         rs_bigint_pow c T L b v base e = bigint_pow c T L b v base e.
+Proof. exact rs_bigint_pow_eq. Qed.
+
+Theorem C12_rs_bigint_pow_eq_TABLES :
+  forall (c : config) (b : build) (v : vec) (base e : Z),
+         limbs_ok (vl v) ->
+         0 <= e < 2 ^ 32 ->
+         zlen (vl v) < 2 ^ 63 ->
+         rs_bigint_pow c TABLES LIMITS b v base e = bigint_pow c TABLES LIMITS b v base e.
+Proof. exact rs_bigint_pow_eq_TABLES. Qed.
+
+Print Assumptions C12_rs_scalar_add_eq.
+Print Assumptions C12_rs_scalar_mul_eq.
+Print Assumptions C12_rs_compare_eq.
+Print Assumptions C12_rs_bigint_normalize_eq.
+Print Assumptions C12_rs_is_normalized_eq.
+Print Assumptions C12_rs_from_u64_eq.
+Print Assumptions C12_rs_nonzero_eq.
+Print Assumptions C12_rs_u64_to_hi64_1_eq.
+Print Assumptions C12_rs_u64_to_hi64_2_eq.
+Print Assumptions C12_rs_rview_index_eq.
+Print Assumptions C12_rs_hi64_eq.
+Print Assumptions C12_rs_leading_zeros_eq.
+Print Assumptions C12_rs_bit_length_eq.
+Print Assumptions C12_rs_shl_bits_eq.
+Print Assumptions C12_rs_shl_limbs_eq.
+Print Assumptions C12_rs_shl_eq.
+Print Assumptions C12_rs_small_add_from_eq.
+Print Assumptions C12_rs_small_add_eq.
+Print Assumptions C12_rs_small_mul_eq.
+Print Assumptions C12_rs_large_add_from_eq.
+Print Assumptions C12_rs_large_add_eq.
+Print Assumptions C12_rs_long_mul_eq.
+Print Assumptions C12_rs_large_mul_eq.
+Print Assumptions C12_rs_pow_eq.
+Print Assumptions C12_rs_pow_eq_compact.
+Print Assumptions C12_rs_pow_eq_TABLES.
+Print Assumptions C12_rs_bigint_pow_eq.
+Print Assumptions C12_rs_bigint_pow_eq_TABLES.
